@@ -237,10 +237,32 @@ def mk_scan(kind, what, n):
 
 
 # ------------------------------------------------------------------ K2
-def k_copy(P, core_rel):
+STALE_KINDS = ["absent", "empty", "prefix", "extended", "edited"]
+STALE_FILES = ["streaming_helpers.py", "utils.py", "auth/base.py"]
+
+
+def _stale(kind, text):
+    lines = text.split("\n")
+    if kind == "empty":
+        return ""
+    if kind == "prefix":
+        return "\n".join(lines[:max(1, len(lines) // 2)]) + "\n"
+    if kind == "extended":
+        return text + "\nLEFT_OVER = 1\n"
+    if kind == "edited":
+        return "\n".join(lines[:3] + ["EDITED = 1"] + lines[3:])
+    return None
+
+
+def k_copy(P, core_rel, stale_kind="absent", stale_file=None):
     ce = import_module(P.__name__ + ".emitters.core_emitter")
     fs = memfs.MemFS()
     fs.mkdir(("out",))
+    if stale_kind != "absent" and stale_file:
+        # an earlier generation (or a half-finished one) left a different version of a runtime module behind
+        parts = ("out",) + tuple(memfs.parse(core_rel)) + tuple(stale_file.split("/"))
+        fs.mkdir(parts[:-1], parents=True, exist_ok=True)
+        fs.write(parts, _stale(stale_kind, open(os.path.join(SRC, "core", *stale_file.split("/")), encoding="utf-8").read()))
 
     class FM:
         def write_file(self, path, content):
@@ -251,15 +273,42 @@ def k_copy(P, core_rel):
         def ensure_dir(self, path):
             fs.mkdir(memfs.parse(path), parents=True, exist_ok=True)
 
-    saved = ce.os
+    saved = (ce.os, ce.__dict__.get("open"))
     ce.os = memfs.Os(fs)
     ce.os.path.basename = lambda p: memfs.parse(p)[-1] if memfs.parse(p) else ""
+
+    def mem_open(path, mode="r", *a, **k):  # an emitter that looks at what is already there reads the in-memory tree
+        class F:
+            def __enter__(s_):
+                return s_
+
+            def read(s_):
+                return fs.read(memfs.parse(path))
+
+            def write(s_, t):
+                parts = memfs.parse(path)
+                fs.mkdir(parts[:-1], parents=True, exist_ok=True)
+                fs.write(parts, t)
+
+            def __exit__(s_, *exc):
+                return False
+
+            def __iter__(s_):
+                return iter(fs.read(memfs.parse(path)).splitlines(True))
+
+        return F()
+
+    ce.__dict__["open"] = mem_open
     try:
         em = ce.CoreEmitter(core_dir=core_rel, core_package="x.core", exception_alias_names=["NotFoundError"])
         em.file_manager = FM()
         files = em.emit("/out")
     finally:
-        ce.os = saved
+        ce.os = saved[0]
+        if saved[1] is None:
+            ce.__dict__.pop("open", None)
+        else:
+            ce.__dict__["open"] = saved[1]
     core_parts = ("out",) + tuple(memfs.parse(core_rel))
     got = {}
     for e in fs.under(core_parts):
@@ -318,19 +367,21 @@ class CopyStep(Obligation):
     def __init__(self, depth, n):
         self.depth, self.n = depth, n
         self.name = "copy_step/depth=%d/len=%d" % (depth, n)
-        self.bounds = {"core directory": "%d component(s), the last one symbolic with %d characters over 'k q'" % (depth, n)}
+        self.bounds = {"core directory": "%d component(s), the last one symbolic with %d characters over 'k q'" % (depth, n),
+                       "state before": "one of %r absent / empty / a line-prefix / extended / edited version of the shipped module" % (STALE_FILES,)}
 
     def make_inputs(self, e):
-        return {"name": mk_sym_str(self.n, "name", self.alphabet)}
+        return {"name": mk_sym_str(self.n, "name", self.alphabet), "stale": STALE_KINDS[e.choose(len(STALE_KINDS), "stale")],
+                "stale_file": STALE_FILES[e.choose(len(STALE_FILES), "stale_file")]}
 
     def _rel(self, inp):
         return ("shared/" if self.depth == 2 else "") + inp["name"]
 
     def run_sym(self, inp):
-        return call_catching(k_copy, _I(), self._rel(inp))
+        return call_catching(k_copy, _I(), self._rel(inp), inp["stale"], inp["stale_file"])
 
     def run_real(self, inp):
-        return call_catching(k_copy, _R(), self._rel(inp))
+        return call_catching(k_copy, _R(), self._rel(inp), inp["stale"], inp["stale_file"])
 
     def normalise(self, r):
         if isinstance(r, tuple):
@@ -387,7 +438,7 @@ class CopyStep(Obligation):
         return self.verdict(inp, r) is None
 
     def describe_violation(self, inp, r):
-        return "core directory %r: %s" % (_simp(self._rel(inp)), self.verdict(inp, r))
+        return "core directory %r (before: %s version of %s): %s" % (_simp(self._rel(inp)), inp["stale"], inp["stale_file"], self.verdict(inp, r))
 
 
 def mk_copy(depth, n):
